@@ -225,31 +225,8 @@ theorem xa_select_api (lc : Cls) (xs : List Val) (xp : Str) (toks : List Str) (v
     | false =>
       have : r1.isFound = true := by simp [hf1, he]
       simp [this, hv1 this, collect]
-  · rw [first, xa_getCore_of_findL lc xs xp toks d false false fuel r0 hq hpc htok hr0]
-    cases vals with
-    | nil =>
-      have : r0.isFound = false := by simp [hf0]
-      simp only [this, Bool.false_eq_true, if_false, firstOf]
-      cases d with
-      | list c ys =>
-        cases ys with
-        | nil => rfl
-        | cons y ys => cases ys <;> rfl
-      | _ => rfl
-    | cons v vs =>
-      have hfd : r0.isFound = true := by simp [hf0]
-      have hv := hv0 hfd
-      simp only [hfd, if_true, hv, firstOf]
-      cases vs with
-      | nil =>
-        simp only [collect, Bool.not_false, List.length_singleton, decide_true, Bool.and_self, if_true, List.headD_cons]
-        cases v with
-        | list c ys =>
-          cases ys with
-          | nil => rfl
-          | cons y ys => cases ys <;> rfl
-        | _ => rfl
-      | cons v2 vs => simp [collect, unwrap1]
+  · exact first_of_collect vals
+      (fun d' => xa_getCore_of_findL lc xs xp toks d' false false fuel r0 hq hpc htok hr0) hf0 hv0 d
 
 /-- the texts `[c]/…` and `/k…` (a selecting tail written from the root of a list) tokenise into their pieces -/
 theorem xa_tokenize_tail (gs : List GSeg) (hg : GoodG gs) : tokenize ('/' :: sel2Render gs) = sel2Toks gs := sel2_tokenize gs hg
